@@ -97,7 +97,11 @@ def check_encoder(run, prop):
 
 
 def check_C09(run):
+    # unbounded histories / sizes / block sizes for the counting abstraction: inductive invariant with Apalache
+    ind = [V.apalache(run.scratch, "EncoderInd", "IndInv", init="Init", length=0, cinit="CInit"),
+           V.apalache(run.scratch, "EncoderInd", "IndInv", init="IndInit", length=1, cinit="CInit")]
     cov, rejected, out = check_encoder(run, "C09")
+    cov["apalache_inductive_invariant"] = ind
     return V.finish("C09", run.tier, run.seed, "model_checking", cov, rejected, out, run.t0, TRUSTED + ["flate/snappy/crc32 as decompression oracle"])
 
 
